@@ -406,6 +406,83 @@ func pickSome(rng *rand.Rand, all []engine.WatchID, lo, hi int) []engine.WatchID
 // returns, the engine's report and the world must agree: a controller that is reported as not
 // running has been cancelled and has no live handler left, and a caller that retries Stop until
 // it returns nil ends up with exactly that.
+// runPartialStart is part (g): ONE StartWatches call asks for several watches and the informer
+// of a later one cannot be had (its kind is not served yet). The call fails; the watches it did
+// start belong to the controller all the same: the next call must not start them a second time,
+// GetWatches must know them, and Stop must take their handlers away.
+func runPartialStart(s *sink, c *kit.Ctx, i int, st *detStats) {
+	caseName := fmt.Sprintf("partial-start/%d", i)
+	rng := c.Rng("partial-start", i)
+	a := ctrlNames[rng.IntN(3)]
+	w := newWorld(worldPlain, &staticClient{items: map[schema.GroupKind][]map[string]any{}})
+	r0 := &recorder{w: w, g: -1}
+	_ = r0.Start(a, ncOK, false)
+	was := pickSome(rng, watchIDs(a), 2, 5)
+	// the informer of one of the later watches fails for the first 1-3 calls
+	bad := was[1+rng.IntN(len(was)-1)]
+	fails := 1 + rng.IntN(3)
+	w.fc.failNext(bad.GVK, 0, fails)
+	errs := 0
+	for call := 0; call < fails+2; call++ {
+		if err := r0.StartWatches(a, was...); err != nil {
+			errs++
+		}
+		for _, x := range was {
+			n, rel := liveCount(w, a, x)
+			if n > 1 {
+				s.Violate("dup-registration:repeated-partial-startwatches", caseName, fmt.Sprintf("after StartWatches call %d (the informer of %s failed %d times): watch %s of %q has %d live registrations", call+1, widStr(bad), fails, widStr(x), a, n),
+					map[string]any{"failing_watch": widStr(bad), "registrations": regSummaries(rel), "history": r0.recs})
+			}
+		}
+	}
+	for _, x := range was {
+		if n, rel := liveCount(w, a, x); n != 1 {
+			s.Violate("watch-not-live-after-informer-fault-passed", caseName, fmt.Sprintf("watch %s of %q has %d live registrations after the injected informer faults were used up and StartWatches succeeded", widStr(x), a, n),
+				map[string]any{"failing_watch": widStr(bad), "registrations": regSummaries(rel), "history": r0.recs})
+		}
+	}
+	all := quiesce(s, w, caseName, "partial-start", []string{a}, r0, nil, nil, &st.lin, &st.qs)
+	s.Eval(fmt.Sprintf("partial-start|%s|%v|%s|%d", a, widStrs(was), widStr(bad), fails), errs > 0)
+	s.Count("partial_start.cases", 1)
+	s.Count("partial_start.startwatches_errors_observed", int64(errs))
+	opsByType(all, st.ops)
+}
+
+// runStopInflight is part (h): Stop is called while a reconcile of that controller is in flight;
+// the reconcile goes on to call StartWatches (every XR reconcile does) and the controller's Start
+// returns only after it. Stop, the late StartWatches and calls for OTHER controllers all return.
+// It returns false if the process must stop (deadlock).
+func runStopInflight(s *sink, c *kit.Ctx, i int, st *detStats) bool {
+	caseName := fmt.Sprintf("stop-inflight/%d", i)
+	rng := c.Rng("stop-inflight", i)
+	a := ctrlNames[rng.IntN(3)]
+	b := ctrlNames[(indexOf(ctrlNames, a)+1)%3]
+	w := newWorld(worldPlain, &staticClient{items: map[schema.GroupKind][]map[string]any{}})
+	r0 := &recorder{w: w, g: -1}
+	_ = r0.Start(a, ncInflight, false)
+	_ = r0.Start(b, ncOK, false)
+	_ = r0.StartWatches(a, pickSome(rng, watchIDs(a), 1, 3)...)
+	done := make(chan struct{})
+	r1 := &recorder{w: w, g: 1}
+	go func() {
+		defer close(done)
+		_ = r1.Stop(a)
+		_ = r1.IsRunning(b)
+		_, _ = r1.GetWatches(b)
+	}()
+	select {
+	case <-done:
+	case <-time.After(20 * time.Second):
+		deadlockVerdict(s, caseName, "Stop of a controller with a reconcile in flight that calls StartWatches")
+		return false
+	}
+	all := quiesce(s, w, caseName, "stop-inflight", []string{a, b}, r0, []*recorder{r1}, nil, &st.lin, &st.qs)
+	s.Eval(fmt.Sprintf("stop-inflight|%s|%d", a, i), true)
+	s.Count("stop_inflight.cases", 1)
+	opsByType(all, st.ops)
+	return true
+}
+
 func runFailingStop(s *sink, c *kit.Ctx, i int, st *detStats) {
 	caseName := fmt.Sprintf("failing-stop/%d", i)
 	rng := c.Rng("failing-stop", i)
